@@ -81,7 +81,8 @@ def main():
         nseq = len(c2.sequences(tier))
         rep.describe(
             explanation=(
-                "Skeleton + holes on %d decorated pages = %d legal header sequences x {metadata variant, date variant}: parsed with "
+                "Skeleton + holes on %d decorated pages = %d legal header sequences x {metadata variant, date variant, and - hole-less - "
+                "the echo variant in which the note right before each header repeats that header's own tags, link and property}: parsed with "
                 "the real lexer/parser, walked by the real ParseTreeWalker + ZorgFileCompiler under CrossHair/z3 with one "
                 "menu-valued name symbolic; EVERY note of the page is compared with the oracle: tags of the four kinds and links = "
                 "union over title line, enclosing section headers and the note itself minus all-digit names; properties merged "
